@@ -4,7 +4,7 @@
 From Coq Require Import List Arith Bool Ring ZArith.
 From PV Require Import Base.Index Base.Sum Np.Array Model.Sparse Model.Repr Model.C01Conv Model.C14Nvecs Model.C11Apr Model.C11Sparse
                        Model.C11LogLik Model.C11Rows Proofs.C14Sums Proofs.C11Mass Proofs.C11Proofs Proofs.C11Pairing Proofs.C11LogLik
-                       Proofs.C11RowsProofs.
+                       Proofs.C11RowsProofs Proofs.C11Replay.
 Import ListNotations.
 
 Section C11_ring.
@@ -132,26 +132,23 @@ Proof.
            divmax_nonneg scale_nonneg abs_nonneg max_nonneg kappa kappatol stoptol kappa_nonneg maxinner).
 Qed.
 
+(* a strict COROLLARY of C11_mu_nonneg (its conjuncts 4-6), kept because the property text lists the bookkeeping separately *)
 Theorem C11_bookkeeping : forall (X : dense V) (K : ktensor V) (maxiters : nat),
   (forall i, vle v0 (den_dense v0 X i)) ->
   Forall (vle v0) (kweights K) -> Forall (Forall (Forall (vle v0))) (kfactors K) ->
   let kkts := snd (cp_apr_mu v0 v1 vadd vmul vsub vdivmax vscale vabs vmin vmax vgt0 vltb kappa kappatol stoptol maxinner X K maxiters) in
   Forall (vle v0) kkts /\ length kkts <= maxiters /\ (1 <= maxiters -> 1 <= length kkts).
 Proof.
-  intros X K maxiters HX Hw HA.
-  destruct (mu_nonneg V v0 v1 vadd vmul vsub (vle v0) le_refl le_0_1 add_nonneg mul_nonneg vdivmax vscale vabs vmin vmax vgt0 vltb
-           divmax_nonneg scale_nonneg abs_nonneg max_nonneg kappa kappatol stoptol kappa_nonneg maxinner X K maxiters HX Hw HA)
-    as (_ & _ & _ & H1 & H2 & H3 & _).
-  exact (conj H1 (conj H2 H3)).
+  exact (mu_bookkeeping V v0 v1 vadd vmul vsub vle le_refl le_0_1 add_nonneg mul_nonneg vdivmax vscale vabs vmin vmax vgt0 vltb
+           divmax_nonneg scale_nonneg abs_nonneg max_nonneg kappa kappatol stoptol kappa_nonneg maxinner).
 Qed.
 
 (* PDNR / PQNR: the projected step is non-negative whatever the search direction, step length, or fallback candidate *)
 Theorem C11_proj_nonneg : forall (m d : list V) (alpha : V) (cand : list V),
   Forall (vle v0) (projected_step v0 vadd vmul vgt0 m d alpha) /\ Forall (vle v0) (map (project v0 vgt0) cand).
 Proof.
-  intros m d alpha cand.
-  exact (conj (proj_nonneg V v0 vadd vmul (vle v0) le_refl vgt0 gt0_nonneg m d alpha)
-              (proj_any V v0 (vle v0) le_refl vgt0 gt0_nonneg cand)).
+  exact (fun m d alpha cand => conj (proj_nonneg V v0 vadd vmul (vle v0) le_refl vgt0 gt0_nonneg m d alpha)
+                                    (proj_any V v0 (vle v0) le_refl vgt0 gt0_nonneg cand)).
 Qed.
 
 (* PDNR and PQNR: the outer-loop state machine of Model/C11Rows.v (zero-row patch, normalise, per mode: redistribute, per row: zero the
